@@ -443,6 +443,83 @@ def run_impl_safe(driver, case):
             signal.signal(signal.SIGALRM, old)
 
 
+class LineCov:
+    """Which lines of the property's anchored source files the implementation runs of this check executed
+    (sys.monitoring LINE events, each location reported once, so the overhead is negligible).  Reported in the
+    evidence so that code paths of the anchored functions that no generated case reaches are visible."""
+
+    def __init__(self, prop):
+        self.files = {}
+        self.hit = set()
+        self.tool = None
+        try:
+            for l in (VERIF / "properties.jsonl").read_text().splitlines():
+                d = json.loads(l)
+                if d["id"] == prop:
+                    for f in d["anchors"]["files"]:
+                        q = (REPO / f).resolve()
+                        if q.suffix == ".py" and q.exists():
+                            self.files[str(q)] = f
+        except Exception:
+            self.files = {}
+
+    def start(self):
+        if not self.files or os.environ.get("VERIF_NO_LINECOV") or not hasattr(sys, "monitoring"):
+            return
+        mon = sys.monitoring
+        try:
+            mon.use_tool_id(mon.COVERAGE_ID, "verif-linecov")
+        except ValueError:
+            return
+        self.tool = mon.COVERAGE_ID
+        files, hit = self.files, self.hit
+
+        def on_line(code, lineno):
+            if code.co_filename in files:
+                hit.add((code.co_filename, lineno))
+            return mon.DISABLE
+        mon.register_callback(self.tool, mon.events.LINE, on_line)
+        mon.set_events(self.tool, mon.events.LINE)
+
+    def stop(self):
+        if self.tool is None:
+            return
+        mon = sys.monitoring
+        mon.set_events(self.tool, 0)
+        mon.register_callback(self.tool, mon.events.LINE, None)
+        mon.free_tool_id(self.tool)
+        self.tool = None
+
+    def report(self):
+        if not self.files:
+            return None
+        out = {"files": {}, "partially_executed_functions": {}, "note":
+               "lines of the anchored source files executed in this process by this run's implementation cases; "
+               "functions listed are those entered at least once with lines never reached (line numbers of the current tree)"}
+        for path, rel in self.files.items():
+            try:
+                top = compile(Path(path).read_text(), path, "exec")
+            except Exception:
+                continue
+            funcs, stack = {}, [top]
+            while stack:
+                co = stack.pop()
+                lines = {ln for _, _, ln in co.co_lines() if ln is not None}
+                lines.discard(co.co_firstlineno)
+                if co is not top:
+                    funcs[(co.co_qualname, co.co_firstlineno)] = lines
+                for k in co.co_consts:
+                    if hasattr(k, "co_lines"):
+                        stack.append(k)
+            hits = {ln for f, ln in self.hit if f == path}
+            allx = set().union(*funcs.values()) if funcs else set()
+            out["files"][rel] = {"executable_lines_in_functions": len(allx), "executed": len(allx & hits)}
+            for (qn, first), lines in sorted(funcs.items(), key=lambda x: x[0][1]):
+                if lines & hits and lines - hits and "<" not in qn.split(".")[-1]:
+                    out["partially_executed_functions"][f"{rel}:{qn}"] = sorted(lines - hits)[:40]
+        return out
+
+
 def check(prop, tier="quick", seed=0):
     t0 = time.time()
     os.environ.setdefault("TMPDIR", str(scratch_dir() / "tmp"))
@@ -476,6 +553,8 @@ def check(prop, tier="quick", seed=0):
 
     # 3. implementation run + oracle
     obs, n_timeouts = [], 0
+    linecov = LineCov(prop)
+    linecov.start()
     for c in cases:
         o = run_impl_safe(driver, c)
         obs.append(o)
@@ -484,6 +563,7 @@ def check(prop, tier="quick", seed=0):
             if n_timeouts >= 3:      # the implementation hangs: three witnesses are enough, do not wait for the rest
                 ctx.notes.append(f"stopped after {n_timeouts} case timeouts; {len(cases) - len(obs)} cases not run")
                 break
+    linecov.stop()
     cases, origin = cases[:len(obs)], origin[:len(obs)]
     verdicts = []
     for c, o in zip(cases, obs):
@@ -616,6 +696,9 @@ def check(prop, tier="quick", seed=0):
     }
     if hasattr(driver, "distribution"):
         coverage["input_distribution"] = driver.distribution(cases, obs)
+    lc = linecov.report()
+    if lc:
+        coverage["anchored_source_line_coverage"] = lc
     coverage.update(extra)
     ev = {
         "property_id": prop, "tier": tier, "seed": seed, "level": "proof", "coverage": coverage,
